@@ -235,6 +235,25 @@ class FakeOS(object):
         raise core.Inconclusive("os.%s is not part of the file-system model" % name)
 
 
+class FakeGlob(object):
+    """glob on the model: the model's own path names carry no pattern characters, so a pattern names at most itself (native replay
+    and sample validation run under a scratch root whose name does contain a bracket expression)"""
+
+    def __init__(self, fs):
+        self.fs = fs
+
+    def glob(self, pattern):
+        if any(ch in pattern for ch in "*?["):
+            raise core.Inconclusive("glob pattern characters in a model path")
+        ex = self.fs.lexists(pattern)
+        return [pattern] if (ex if isinstance(ex, bool) else bool(ex)) else []
+
+    def __getattr__(self, name):
+        if NATIVE:
+            raise AttributeError(name)
+        raise core.Inconclusive("glob.%s is not part of the file-system model" % name)
+
+
 class FakeFile(object):
     def __init__(self, fs, p, mode):
         self.fs, self.p, self.mode = fs, p, mode
@@ -300,8 +319,9 @@ class Patched(object):
         self.fs, self.rhsm = fs, rhsm
 
     def __enter__(self):
-        self.saved = dict((k, U.__dict__.get(k)) for k in ("os", "open", "uuid", "_get_rhsm_identity", "get_time"))
+        self.saved = dict((k, U.__dict__.get(k)) for k in ("os", "open", "uuid", "_get_rhsm_identity", "get_time", "glob"))
         U.os = FakeOS(self.fs)
+        U.glob = FakeGlob(self.fs)
         U.open = lambda p, mode="r": FakeFile(self.fs, p, mode)
         U.uuid = FakeUUID()
         U._get_rhsm_identity = lambda: self.rhsm
@@ -488,7 +508,7 @@ def obligations(tier):
 def _native(case):
     import shutil
     import tempfile
-    root = tempfile.mkdtemp(prefix="c17_")
+    root = tempfile.mkdtemp(prefix="c17_[x]_")        # a legal directory name that is also a glob pattern not matching itself
     try:
         mp = {}
         for p in REG + UNREG + [MID]:
